@@ -199,3 +199,121 @@ def h_repair(nv: int, s0: int, r0: int, k0: int, c0: int, d0: int, s1: int, r1: 
     if len(uploads) != 1 or uploads[0][1] != b"contents of " + _summ(best).encode("ascii") or uploads[0][2] is not sm:
         return "repair did not upload exactly the downloaded contents against the same servermap"
     return True
+
+
+# ---- the way into the repairer: check-and-repair -> node.repair -> Repairer.start ------------------------------
+
+from allmydata.mutable import filenode as fn_mod
+from allmydata.mutable.common import MODE_REPAIR
+hlib.encoded(ck_mod.MutableCheckAndRepairer._maybe_repair, ck_mod.MutableCheckAndRepairer._stash_pre_repair_results,
+             fn_mod.MutableFileNode.repair, rp_mod.Repairer.__init__, rp_mod.Repairer.start)
+NOTES.append("repair_entry: allmydata.mutable.repairer.ServermapUpdater replaced by a recorder whose update() fires with the harness's "
+             "populated ServerMap; the node is a real MutableFileNode (made with __new__) whose download_version/upload are recorders")
+
+
+class _FakeUpdater(object):
+    made = []
+    smap = None
+
+    def __init__(self, node, storage_broker, monitor, servermap, mode="<default>", **kw):
+        _FakeUpdater.made.append((node, storage_broker, monitor, servermap, mode, kw))
+
+    def get_status(self):
+        return "status"
+
+    def update(self):
+        return defer.succeed(_FakeUpdater.smap)
+
+
+rp_mod.ServermapUpdater = _FakeUpdater
+
+
+def h_repair_entry(nv: int, s0: int, r0: int, k0: int, c0: int, d0: int, s1: int, r1: int, k1: int, c1: int, d1: int,
+                   s2: int, r2: int, k2: int, c2: int, d2: int, entry: int) -> bool:
+    """
+    pre: mm.descriptors_ok(nv, _descs([s0, r0, k0, c0, d0, s1, r1, k1, c1, d1, s2, r2, k2, c2, d2]), B)
+    pre: 0 <= entry <= 2 and (B.get("entry") is None or entry == B["entry"])
+    pre: B.get("r0") is None or nv == 0 or r0 == B["r0"]
+    pre: B.get("s0") is None or nv == 0 or s0 == B["s0"]
+    post: _ == True
+    """
+    nv, sm, model = _setup(nv, [s0, r0, k0, c0, d0, s1, r1, k1, c1, d1, s2, r2, k2, c2, d2])
+    entry = mm.pin(entry, 0, 2)       # 0: MutableCheckAndRepairer._maybe_repair, 1: node.repair(cr, force=False), 2: node.repair(cr, force=True)
+    _FakeUpdater.made = []
+    _FakeUpdater.smap = sm
+    node = fn_mod.MutableFileNode.__new__(fn_mod.MutableFileNode)
+    node._uri = _CAP
+    node._storage_index = SI
+    node._storage_broker = "storage-broker"
+    node._history = None
+    node._writekey = b"w" * 16
+    calls = []
+    node.download_version = lambda smap, version, fetch_privkey=False: (calls.append(("download", smap, version, fetch_privkey)),
+                                                                        defer.succeed(b"contents of " + _summ(version).encode("ascii")))[1]
+    node.upload = lambda uploadable, smap: (calls.append(("upload", b"".join(uploadable.read(uploadable.get_size())), smap)),
+                                            defer.succeed("upload-results"))[1]
+    monitor = NS(raise_if_cancelled=lambda: None)
+    chk = ck_mod.MutableCheckAndRepairer(node, "storage-broker", None, monitor)
+    chk._got_mapupdate_results(sm)
+    pre = chk._make_checker_results(sm)
+    chk._stash_pre_repair_results(pre)
+    rec, unrec = mm.recoverable(model), mm.unrecoverable(model)
+    best = _best(model)
+    must_refuse = False
+    for v in unrec:
+        if rec and all(w[0] < v[0] for w in rec):
+            must_refuse = True                       # a newer version that cannot be recovered would be discarded
+    for v in rec:
+        for w in rec:
+            if v != w and v[0] == w[0] and v[0] == best[0]:
+                must_refuse = True                   # competing versions at the newest sequence number
+    forced = (entry == 2)
+    if entry == 0:
+        d = chk._maybe_repair(pre)
+    else:
+        d = node.repair(pre, force=forced, monitor=monitor)
+    out = []
+    if d is not None:
+        d.addBoth(out.append)
+    healthy = pre.is_healthy()
+    if entry == 0 and healthy:
+        if _FakeUpdater.made or calls or chk.cr_results.post_repair_results is not pre or chk.cr_results.repair_attempted:
+            return "a healthy file was repaired"
+        return True
+    if len(_FakeUpdater.made) != 1:
+        return "repair did not start exactly one servermap update"
+    (unode, usb, umon, umap, umode, ukw) = _FakeUpdater.made[0]
+    if umode != MODE_REPAIR:
+        return "the repairer's servermap update is not MODE_REPAIR (it must locate every existing share)"
+    if unode is not node or usb != "storage-broker" or umon is not monitor or umap is sm or ukw:
+        return "servermap update started with the wrong node/broker/monitor/map"
+    if len(out) != 1:
+        return "repair Deferred did not fire"
+    failed = isinstance(out[0], failure.Failure)
+    if not rec:
+        if calls:
+            return "nothing recoverable but the grid was touched"
+        return True
+    if must_refuse and not forced:
+        if not (failed and out[0].check(rp_mod.MustForceRepairError)):
+            return "repair without force went ahead over a newer unrecoverable / competing version"
+        if calls:
+            return "refused repair touched the grid"
+        if entry == 0 and (chk.cr_results.repair_attempted is not True or chk.cr_results.repair_successful is not False):
+            return "check-and-repair does not report the refused repair as attempted and unsuccessful"
+        return True
+    if failed:
+        if forced or not out[0].check(rp_mod.MustForceRepairError):
+            return "repair failed unexpectedly"
+        return True        # refusing more often than required (competing versions below the newest seqnum) is allowed
+    ups = [c for c in calls if c[0] == "upload"]
+    downs = [c for c in calls if c[0] == "download"]
+    if len(downs) != 1 or downs[0][2] != best or len(ups) != 1 or ups[0][1] != b"contents of " + _summ(best).encode("ascii"):
+        return "repair did not republish exactly the best version's contents"
+    if entry == 0:
+        crr = chk.cr_results
+        if crr.repair_attempted is not True or crr.repair_successful is not True or crr.pre_repair_results is not pre:
+            return "check-and-repair results do not record the successful repair"
+        if not isinstance(crr.post_repair_results, CheckResults):
+            return "no post-repair check results"
+    return True
